@@ -4,6 +4,7 @@ blocks, epilogue; CRLF / bare-LF / bare-CR line breaks.
 Core Lean only.
 -/
 import WzVerif.Lemmas.MultipartRaw
+import WzVerif.Lemmas.SearchPos
 import WzVerif.Lemmas.FormLimits
 namespace Wz.Multipart
 open Wz
@@ -588,8 +589,7 @@ def DataInv (nl : Nl) (bnd ep : Bytes) (p : RawPart) (ps : List RawPart) (pre bu
 def Good (nl : Nl) (bnd ep pr : Bytes) (lead : Bool) (d : Decoder) (fut : Bytes) : Phase → Prop
   | .pre ps =>
     Plain bnd d ∧ d.state = .preamble ∧ d.buffer ++ fut = bodyOfR nl bnd ep pr lead ps ∧
-      PreFreeR nl bnd ep pr lead ps ∧ ∃ b0 c0, d.buffer = b0 ++ c0 ∧ searchDelim bnd true b0 = none ∧
-        d.searchPos = b0.length - bnd.length - searchExtra
+      PreFreeR nl bnd ep pr lead ps ∧ NoEarly bnd d.searchPos d.buffer
   | .hdr lf p ps =>
     Plain bnd d ∧ d.state = .part ∧ d.buffer ++ fut = lfPre lf ++ rAfterOf nl bnd ep (p :: ps) ∧
       ∃ b0 c0, d.buffer = b0 ++ c0 ∧ searchBlank b0 = none ∧ d.searchPos = b0.length - searchExtra
@@ -764,22 +764,11 @@ theorem searchDelim_none_of_nl_append {nl : Nl} {bnd b : Bytes} {o : Bool}
 theorem rawBody_match {bnd : Bytes} (ps : List RawPart) (hvs : ∀ q ∈ ps, RawOk nl bnd q) :
     ∃ m, matchDelimAt bnd false (rawBody nl bnd ep ps) = some (nl.len + (bnd.length + 2) + m, ps.isEmpty) ∧
       (rawBody nl bnd ep ps).drop (nl.len + (bnd.length + 2) + m) = rAfterOf nl bnd ep ps ∧
-      (ps.isEmpty = false → m = nl.len) := by
+      (∀ p ps', ps = p :: ps' → m = p.pad.length + nl.len) := by
   have hl := nl.lbLen_delim bnd (rTailOf nl bnd ep ps)
   have hA := rAfterDelim_tailOf (nl := nl) (ep := ep) ps hvs
-  have key : ∃ m, matchTail (rTailOf nl bnd ep ps) = some (m, ps.isEmpty) ∧
-      (rTailOf nl bnd ep ps).drop m = rAfterOf nl bnd ep ps ∧ (ps.isEmpty = false → m = nl.len) := by
-    cases hf : ps.isEmpty with
-    | true =>
-      rw [hf] at hA
-      rcases matchTail_afterDelimNl hA with ⟨m, hm, hdrop⟩
-      exact ⟨m, hm, hdrop, by simp⟩
-    | false =>
-      rw [hf] at hA
-      have := matchTail_afterDelimNl_len hA
-      exact ⟨nl.len, this.1, this.2, fun _ => rfl⟩
-  rcases key with ⟨m, hm, hdrop, hmn⟩
-  refine ⟨m, ?_, ?_, hmn⟩
+  rcases matchTail_afterDelimNl hA with ⟨m, hm, hdrop⟩
+  refine ⟨m, ?_, ?_, ?_⟩
   · rw [rawBody_eq]
     apply matchDelimAt_iff.2
     exact ⟨rTailOf nl bnd ep ps, m, by rw [hl]; exact nl.len_pos, by rw [hl]; simp [Nl.len], hm, by rw [hl]⟩
@@ -787,8 +776,23 @@ theorem rawBody_match {bnd : Bytes} (ps : List RawPart) (hvs : ∀ q ∈ ps, Raw
     have e2 : nl.len + (bnd.length + 2) + m = (m + (delim bnd).length) + nl.bytes.length := by
       simp [delim, Nl.len]; omega
     rw [e2, drop_add_append, drop_add_append, hdrop]
+  · intro p ps' hps
+    subst hps
+    rcases rawOk_head (hvs p (by simp)) with ⟨x, t, hx, hsp⟩
+    have hx10 : x ≠ 10 := by intro e; subst e; simp [isBytesSpace] at hsp
+    have := matchTail_pad_nl (nl := nl) (t ++ (nl.bytes ++ rDataOf nl bnd ep p ps')) (hvs p (by simp)).2.2.2.1 hx10
+    simp only [rTailOf, hx, List.cons_append, List.isEmpty_cons] at hm
+    rw [this] at hm
+    simp only [Option.some.injEq, Prod.mk.injEq, and_true] at hm
+    exact hm.symm
 
-/-- while the first delimiter is not complete in the buffer, `preamble_re` finds nothing at all -/
+theorem not_nl_of_mem {l : Bytes} (h : hasNl l = false) {y : UInt8} (hy : y ∈ l) : isNl y = false := by
+  unfold hasNl at h
+  rw [List.any_eq_false] at h
+  simpa using h y hy
+
+/-- while the first delimiter line is not complete in the buffer, `preamble_re` finds nothing at all —
+whatever the amount of transport padding on that line -/
 theorem pre_no_match {bnd : Bytes} (hb : BoundaryOk bnd) {ps : List RawPart} (hvs : ∀ q ∈ ps, RawOk nl bnd q)
     {b fut : Bytes}
     (hcat : b ++ fut = rawBody nl bnd ep ps) (h0 : matchDelimAt bnd true b = none) :
@@ -798,21 +802,19 @@ theorem pre_no_match {bnd : Bytes} (hb : BoundaryOk bnd) {ps : List RawPart} (hv
   have hlW : lbLen (b ++ fut) = nl.len := by rw [hcat, rawBody_eq]; exact nl.lbLen_delim bnd _
   have hnp := nl.len_pos
   have hn2 := nl.len_le_two
-  -- the buffer is short
-  have hshort : b.length < nl.len + (bnd.length + 2) + 2 := by
+  -- the buffer ends before the first delimiter line does
+  have hshort : b.length < nl.len + (bnd.length + 2) + (if ps.isEmpty then 2 else m) := by
     apply Nat.lt_of_not_le
     intro hge
     rw [← hcat] at hMt
     cases hf : ps.isEmpty with
     | true =>
-      rw [hf] at hMt
-      rcases matchDelimAt_restrict_true' hMt (by rw [hlW]; exact hge) with ⟨n', hn'⟩
+      rw [hf] at hMt hge
+      rcases matchDelimAt_restrict_true' hMt (by rw [hlW]; simpa using hge) with ⟨n', hn'⟩
       rw [h0] at hn'; simp at hn'
     | false =>
-      rw [hf] at hMt
-      have hm2 := hmn hf
-      subst hm2
-      have := matchDelimAt_restrict_false hMt (by omega)
+      rw [hf] at hMt hge
+      have := matchDelimAt_restrict_false hMt (by simpa using hge)
       rw [h0] at this; simp at this
   -- no position of the buffer carries a match
   have hall : ∀ j, matchDelimAt bnd true (b.drop j) = none := by
@@ -881,10 +883,72 @@ theorem pre_no_match {bnd : Bytes} (hb : BoundaryOk bnd) {ps : List RawPart} (hv
               have hl2 := nl.lbLen_delim bnd r
               exact matchDelimAt_iff'.2 ⟨r, m1, by simp, by rw [hl2]; simp [Nl.len], hm1, by rw [hl2]⟩
             rw [h0] at this; simp at this
-          · -- nothing is left for the rest of the delimiter line
-            have hr0 : r = [] := List.eq_nil_of_length_eq_zero (by omega)
-            rw [hr0] at hm1
-            simp [matchTail, lbLen] at hm1
+          · -- a second `--boundary` after the first one, inside the unfinished delimiter line
+            have hjb : j ≤ b.length := by omega
+            -- what the body holds from offset j on
+            have hbody : (delim bnd ++ rTailOf nl bnd ep ps).drop (j - nl.len) = delim bnd ++ (r ++ fut) := by
+              have h1 : (b ++ fut).drop j = delim bnd ++ (r ++ fut) := by
+                rw [List.drop_append_of_le_length hjb, hd, List.append_assoc]
+              rw [hcat, rawBody_eq] at h1
+              have e : j = (j - nl.len) + nl.bytes.length := by simp [Nl.len] at hj1 hj2 ⊢; omega
+              rw [e, drop_add_append] at h1
+              exact h1
+            cases ps with
+            | nil =>
+              -- closing delimiter: nothing is left for the rest of the line
+              simp only [List.isEmpty_nil, if_true] at hshort
+              have hr0 : r = [] := List.eq_nil_of_length_eq_zero (by omega)
+              rw [hr0] at hm1
+              simp [matchTail, lbLen] at hm1
+            | cons p ps' =>
+              have hm2 := hmn p ps' rfl
+              simp only [List.isEmpty_cons, Bool.false_eq_true, if_false] at hshort
+              rcases rawOk_head (hvs p (by simp)) with ⟨x, t, hx, hsp⟩
+              have hpad := (hvs p (by simp)).2.2.2.1
+              let k := j - nl.len
+              have hk1 : 1 ≤ k := by simp only [k]; omega
+              -- R: the line break after the padding and what follows
+              let R := nl.bytes ++ (p.hdr ++ (nl.bytes ++ rDataOf nl bnd ep p ps'))
+              have hT : delim bnd ++ rTailOf nl bnd ep (p :: ps') = (delim bnd ++ p.pad) ++ R := by
+                simp [rTailOf, R]
+              rw [hT] at hbody
+              have hDP : (delim bnd ++ p.pad).length = bnd.length + 2 + p.pad.length := by
+                simp [delim]; omega
+              by_cases hA : k + (bnd.length + 2) ≤ bnd.length + 2 + p.pad.length
+              · -- entirely inside `--boundary` + padding: `--boundary` would be white space
+                have hk : k ≤ (delim bnd ++ p.pad).length := by omega
+                rw [List.drop_append_of_le_length hk] at hbody
+                have hp : (delim bnd).isPrefixOf ((delim bnd ++ p.pad).drop k ++ R) = true := by
+                  rw [hbody, List.isPrefixOf_iff_prefix]; exact List.prefix_append _ _
+                rw [isPrefixOf_append_of_length_le R (by rw [delim_length]; simp [delim]; omega),
+                  List.isPrefixOf_iff_prefix] at hp
+                rcases hp with ⟨Z, hZ⟩
+                have := self_overlap_hws hpad (delim bnd).length (delim bnd) (Nat.le_refl _) k hk1 ⟨Z, hZ.symm⟩
+                have h45 := this 45 (by simp [delim])
+                revert h45; decide
+              · by_cases hB : k ≤ bnd.length + 2 + p.pad.length
+                · -- it would contain the first byte of the line break
+                  let i0 := bnd.length + 2 + p.pad.length - k
+                  have hi0 : i0 < (delim bnd).length := by rw [delim_length]; simp only [i0]; omega
+                  have h2 : ((delim bnd ++ p.pad) ++ R).drop (k + i0) = (delim bnd).drop i0 ++ (r ++ fut) := by
+                    rw [← List.drop_drop, hbody, List.drop_append_of_le_length (by omega)]
+                  have hki : k + i0 = (delim bnd ++ p.pad).length := by rw [hDP]; simp only [i0]; omega
+                  rw [hki, List.drop_left] at h2
+                  rcases nl.head_isNl (p.hdr ++ (nl.bytes ++ rDataOf nl bnd ep p ps')) with ⟨a, t', he, ha⟩
+                  simp only [R] at h2
+                  rw [he] at h2
+                  match hq : (delim bnd).drop i0, h2 with
+                  | [], _ =>
+                    have := congrArg List.length hq
+                    simp at this; omega
+                  | y :: ys, h2 =>
+                    simp at h2
+                    have hy : y ∈ delim bnd := List.mem_of_mem_drop (by rw [hq]; simp)
+                    have := not_nl_of_mem (delim_no_nl hb) hy
+                    rw [← h2.1, ha] at this
+                    simp at this
+                · -- after the padding: the buffer is too short
+                  omega
   have := searchDelim_skip (bnd := bnd) (o := true) b b.length (fun j _ => hall j)
   rw [this]
   simp [searchDelim]
@@ -957,7 +1021,7 @@ theorem first_delim_core {bnd : Bytes} (hb : BoundaryOk bnd) {ps : List RawPart}
     (hcat : b ++ fut = rawBody nl bnd ep ps) :
     (matchDelimAt bnd true b = none → searchDelim bnd true b = none ∧ fut ≠ []) ∧
     (∀ e f, matchDelimAt bnd true b = some (e, f) →
-      f = ps.isEmpty ∧ 0 < e ∧ e ≤ b.length ∧ (f = false → e ≤ bnd.length + 6) ∧
+      f = ps.isEmpty ∧ 0 < e ∧ e ≤ b.length ∧
       (f = false → ∃ lf, b.drop e ++ fut = lfPre lf ++ rAfterOf nl bnd ep ps)) := by
   rcases rawBody_match (nl := nl) (ep := ep) ps hvs with ⟨m, hM, hMdrop, hmn⟩
   constructor
@@ -981,13 +1045,7 @@ theorem first_delim_core {bnd : Bytes} (hb : BoundaryOk bnd) {ps : List RawPart}
     rw [hcat, hM] at he'
     simp only [Option.some.injEq, Prod.mk.injEq] at he'
     rcases he' with ⟨he', hF⟩
-    refine ⟨hF.symm, hbnd0.1, hbnd0.2, ?_, ?_⟩
-    · intro hf
-      -- a non-closing first delimiter is `NL--boundary NL`
-      subst hf
-      have hm2 := hmn hF
-      have := nl.len_le_two
-      rcases hrel rfl with h1 | ⟨h1, _, _⟩ <;> omega
+    refine ⟨hF.symm, hbnd0.1, hbnd0.2, ?_⟩
     · intro hf
       subst hf
       rcases hrel rfl with heq | ⟨heq, hlen, c', hc⟩
@@ -1009,7 +1067,7 @@ theorem pre_search {bnd : Bytes} (hb : BoundaryOk bnd) {ps : List RawPart} (hvs 
     {b fut : Bytes} (hcat : b ++ fut = bodyOfR nl bnd ep pr lead ps) :
     (searchDelim bnd true b = none ∧ fut ≠ []) ∨
     (∃ e f, searchDelim bnd true b = some (pr.length, e, f) ∧ f = ps.isEmpty ∧ pr.length < e ∧
-      e ≤ b.length ∧ (f = false → e - pr.length ≤ bnd.length + 6) ∧
+      e ≤ b.length ∧
       (f = false → ∃ lf, b.drop e ++ fut = lfPre lf ++ rAfterOf nl bnd ep ps)) := by
   have hnp : 0 < nl.bytes.length := nl.len_pos
   cases lead with
@@ -1062,14 +1120,13 @@ theorem pre_search {bnd : Bytes} (hb : BoundaryOk bnd) {ps : List RawPart} (hvs 
       | some v =>
         right
         rcases v with ⟨e, f⟩
-        rcases hB e f h0 with ⟨hf, he0, hle, hbound, hnext⟩
+        rcases hB e f h0 with ⟨hf, he0, hle, hnext⟩
         have hs0 : searchDelim bnd true (b.drop pr.length) = some (0, e, f) := by
           cases hq : b.drop pr.length with
           | nil => rw [hq] at hle; simp at hle; omega
           | cons a t => rw [hq] at h0; exact searchDelim_cons_some h0
-        refine ⟨e + pr.length, f, by rw [hskip, hs0]; simp [shift], hf, by omega, ?_, ?_, ?_⟩
+        refine ⟨e + pr.length, f, by rw [hskip, hs0]; simp [shift], hf, by omega, ?_, ?_⟩
         · simp at hle; omega
-        · intro h; have := hbound h; omega
         · intro h
           rcases hnext h with ⟨lf, hl⟩
           refine ⟨lf, ?_⟩
@@ -1109,15 +1166,14 @@ theorem pre_search {bnd : Bytes} (hb : BoundaryOk bnd) {ps : List RawPart} (hvs 
     | some v =>
       right
       rcases v with ⟨e, f⟩
-      rcases hB e f h0 with ⟨hf, he0, hle, hbound, hnext⟩
+      rcases hB e f h0 with ⟨hf, he0, hle, hnext⟩
       rcases hrel e f h0 with ⟨hm, he2⟩
       have hbounds := matchDelimAt_bounds_any hm
       have hs0 : searchDelim bnd true b = some (0, e - nl.len, f) := by
         cases hq : b with
         | nil => rw [hq] at hbounds; simp at hbounds; omega
         | cons a t => rw [hq] at hm; exact searchDelim_cons_some hm
-      refine ⟨e - nl.len, f, by simpa using hs0, hf, by simp; omega, hbounds.2, ?_, ?_⟩
-      · intro h; have := hbound h; simp; omega
+      refine ⟨e - nl.len, f, by simpa using hs0, hf, by simp; omega, hbounds.2, ?_⟩
       · intro h
         rcases hnext h with ⟨lf, hl⟩
         refine ⟨lf, ?_⟩
@@ -1136,26 +1192,17 @@ theorem step_pre {bnd : Bytes} (hb : BoundaryOk bnd) {d : Decoder} {fut : Bytes}
     {ps : List RawPart} (hvs : ∀ q ∈ ps, RawOk nl bnd q) (hg : Good nl bnd ep pr lead d fut (.pre ps)) :
     (∃ d', nextEvent d = .ok (.needData, d') ∧ Good nl bnd ep pr lead d' fut (.pre ps) ∧ fut ≠ []) ∨
     (∃ x d', nextEvent d = .ok (.preamble x, d') ∧ GoodNext nl bnd ep pr lead d' fut ps) := by
-  rcases hg with ⟨hpl, hst, hcat, hpre, b0, c0, hbc, hb0, hpos⟩
+  rcases hg with ⟨hpl, hst, hcat, hpre, hearly⟩
   have hpl' := hpl
   rcases hpl with ⟨hbn, hcomp, hmm, hmp⟩
   have hps := pre_search (nl := nl) (ep := ep) hb hvs hpre hcat
-  -- the retained search position does not matter: the first delimiter is short
-  have hpad : PadOk bnd (b0 ++ c0) := by
-    rw [← hbc]
-    unfold PadOk
-    rcases hps with ⟨h1, _⟩ | ⟨e, f, h1, _, _, _, h5, _⟩
-    · rw [h1]; trivial
-    · rw [h1]
-      cases f with
-      | true => trivial
-      | false => simp only; have := h5 rfl; rw [searchExtra_eq]; omega
+  -- the retained search position does not matter (`noEarly_next`: no bound on padding)
   have hfrom : searchDelimFrom d.boundary true d.searchPos d.buffer = searchDelim bnd true d.buffer := by
-    rw [hpos, hbn, hbc]; exact searchPos_irrelevant_lemma hb0 hpad
-  rcases hps with ⟨hnone, hfut⟩ | ⟨e, f, hsome, hf, hlt, hle, _, hnext⟩
+    rw [hbn]; exact hearly.search
+  rcases hps with ⟨hnone, hfut⟩ | ⟨e, f, hsome, hf, hlt, hle, hnext⟩
   · left
-    let d' : Decoder := { d with searchPos := d.buffer.length - d.boundary.length - searchExtra }
-    refine ⟨d', ?_, ⟨hpl', hst, hcat, hpre, d.buffer, [], by simp [d'], hnone, by simp [d', hbn]⟩, hfut⟩
+    let d' : Decoder := { d with searchPos := nextSearchPos d.boundary d.buffer d.searchPos }
+    refine ⟨d', ?_, ⟨hpl', hst, hcat, hpre, by simp only [d']; rw [hbn]; exact noEarly_next hearly hnone⟩, hfut⟩
     apply nextEvent_of_step' hcomp
     unfold step
     rw [hst]
@@ -1784,8 +1831,8 @@ theorem good_receive {bnd : Bytes} {d : Decoder} {c fut : Bytes} {ph : Phase}
   cases ph with
   | epi => exact ⟨⟨hbn, hcomp, hmm, hmp⟩, hg.2⟩
   | pre ps =>
-    rcases hg with ⟨_, hst, hcat, hfree, b0, c0, hbc, hb0, hpos⟩
-    exact ⟨⟨hbn, hcomp, hmm, hmp⟩, hst, by simpa using hcat, hfree, b0, c0 ++ c, by simp [hbc], hb0, hpos⟩
+    rcases hg with ⟨_, hst, hcat, hfree, hearly⟩
+    exact ⟨⟨hbn, hcomp, hmm, hmp⟩, hst, by simpa using hcat, hfree, hearly.append c⟩
   | hdr lf p ps =>
     rcases hg with ⟨_, hst, hcat, b0, c0, hbc, hb0, hpos⟩
     exact ⟨⟨hbn, hcomp, hmm, hmp⟩, hst, by simpa using hcat, b0, c0 ++ c, by simp [hbc], hb0, hpos⟩
@@ -1873,8 +1920,7 @@ theorem decode_chunks_full_raw {bnd : Bytes} (hb : BoundaryOk bnd) (ps : List Ra
     (decodeChunks bnd none none chunks).err = none ∧
     partsOf (decodeChunks bnd none none chunks).events = ps.map RawPart.out := by
   have hg : Good nl bnd ep pr lead (mkDecoder bnd none none) chunks.flatten (.pre ps) :=
-    ⟨⟨rfl, rfl, rfl, rfl⟩, rfl, by simp [mkDecoder, hjoin], hpre, [], [], rfl, by simp [searchDelim],
-      by simp [mkDecoder]⟩
+    ⟨⟨rfl, rfl, rfl, rfl⟩, rfl, by simp [mkDecoder, hjoin], hpre, NoEarly.zero _ _⟩
   have hne : chunks.flatten = [] → Phase.pre ps = .epi := by
     intro h0
     rw [hjoin] at h0
@@ -1943,8 +1989,7 @@ theorem formParse_raw {bnd : Bytes} (hb : BoundaryOk bnd) (ps : List RawPart)
   have hfl := readChunks_flatten bufSize body.length sched body (Nat.le_refl _)
   have hg : Good nl bnd ep pr lead (mkDecoder bnd none none)
       (readChunks bufSize body.length sched body).flatten (.pre ps) :=
-    ⟨⟨rfl, rfl, rfl, rfl⟩, rfl, by simp [mkDecoder, hfl, hB], hpre, [], [], rfl, by simp [searchDelim],
-      by simp [mkDecoder]⟩
+    ⟨⟨rfl, rfl, rfl, rfl⟩, rfl, by simp [mkDecoder, hfl, hB], hpre, NoEarly.zero _ _⟩
   have hne : (readChunks bufSize body.length sched body).flatten = [] → Phase.pre ps = .epi := by
     intro h0
     rw [hfl, ← hB] at h0
@@ -1956,6 +2001,45 @@ theorem formParse_raw {bnd : Bytes} (hb : BoundaryOk bnd) (ps : List RawPart)
       ((readChunks bufSize body.length sched body).map some ++ [none]) with
   | error e => rw [hl] at this; simpa [Except.map, ExpF, outOf] using this
   | ok st => rw [hl] at this; simpa [Except.map, ExpF, outOf] using this
+
+/-! ### the retained search position over a whole run of failed PREAMBLE searches -/
+
+/-- `preamble_re` finds nothing in a prefix of a buffer in which it finds nothing -/
+theorem searchDelim_true_none_prefix {bnd x c : Bytes} (h : searchDelim bnd true (x ++ c) = none) :
+    searchDelim bnd true x = none := by
+  have hall : ∀ j, matchDelimAt bnd true (x.drop j) = none := by
+    intro j
+    cases hx : matchDelimAt bnd true (x.drop j) with
+    | none => rfl
+    | some v =>
+      exfalso
+      rcases v with ⟨n, f⟩
+      have hjb : j ≤ x.length := by
+        apply Nat.le_of_not_lt; intro hlt
+        rw [List.drop_eq_nil_of_le (by omega)] at hx
+        simp [matchDelimAt, lbLen] at hx
+      rcases matchDelimAt_true_append c hx with ⟨n', hn'⟩
+      rw [← List.drop_append_of_le_length hjb] at hn'
+      exact searchDelim_of_match_drop hn' h
+  have := searchDelim_skip (bnd := bnd) (o := true) x x.length (fun j _ => hall j)
+  rw [this]; simp [searchDelim]
+
+/-- the `_search_position` after the chunks `cs` have been appended one by one to `buf` (search
+position `sp`), `preamble_re` failing each time -/
+def spAfter (bnd : Bytes) : List Bytes → Bytes → Nat → Nat
+  | [], _, sp => sp
+  | c :: cs, buf, sp => spAfter bnd cs (buf ++ c) (nextSearchPos bnd (buf ++ c) sp)
+
+theorem spAfter_noEarly {bnd : Bytes} : ∀ (cs : List Bytes) (buf : Bytes) (sp : Nat), NoEarly bnd sp buf →
+    searchDelim bnd true (buf ++ cs.flatten) = none → NoEarly bnd (spAfter bnd cs buf sp) (buf ++ cs.flatten) := by
+  intro cs
+  induction cs with
+  | nil => intro buf sp h _; simpa [spAfter] using h
+  | cons c cs ih =>
+    intro buf sp h hnone
+    simp only [spAfter, List.flatten_cons] at hnone ⊢
+    rw [← List.append_assoc] at hnone ⊢
+    exact ih (buf ++ c) _ (noEarly_next (h.append c) (searchDelim_true_none_prefix hnone)) hnone
 
 /-! ### parts with `Name: value` header lines (the shape the encoder writes) -/
 
